@@ -794,6 +794,13 @@ static uint32_t read_universal_char(char *p, int len) {
   return c;
 }
 
+// [C11 6.4.3p2] A universal character name does not designate a
+// character below 0xA0 other than $, @ and `. Such a sequence is not
+// converted: `\u000a` in a comment must not become a newline.
+static bool is_ucn_value(uint32_t c) {
+  return c >= 0xA0 || c == '$' || c == '@' || c == '`';
+}
+
 // Replace \u or \U escape sequences with corresponding UTF-8 bytes.
 void convert_universal_chars(char *p) {
   char *q = p;
@@ -801,7 +808,7 @@ void convert_universal_chars(char *p) {
   while (*p) {
     if (startswith(p, "\\u")) {
       uint32_t c = read_universal_char(p + 2, 4);
-      if (c) {
+      if (is_ucn_value(c)) {
         p += 6;
         q += encode_utf8(q, c);
       } else {
@@ -809,7 +816,7 @@ void convert_universal_chars(char *p) {
       }
     } else if (startswith(p, "\\U")) {
       uint32_t c = read_universal_char(p + 2, 8);
-      if (c) {
+      if (is_ucn_value(c)) {
         p += 10;
         q += encode_utf8(q, c);
       } else {
